@@ -157,6 +157,7 @@ theorem uFind_ok : ∀ f k j r, k < N → key k = key i → FInv C key N uvs i k
           · exact j4 s hs hv hms
           · rw [hv, hmf] at hms; cases hms
 
+omit hi hprev in
 theorem finv_init : FInv C key N uvs i i i := by
   left
   refine ⟨rfl, fun s _ hv => ?_⟩
